@@ -471,9 +471,9 @@ inline Op opTakeEditPutBack(int r, size_t fi, const std::string& what, int vs) {
         Frame g(w.c->data().frame(fi)); Shape sh; for (auto& p : s.o.frames[fi].pts) sh.pts.push_back(p.name); if (!s.o.frames[fi].subs.empty()) { for (auto& c : s.o.frames[fi].subs[0]) sh.chans.push_back(c.name); sh.nsub = s.o.frames[fi].subs.size(); }
         Frame fresh = buildFrame(sh, vs); FrSnap want = s.o.frames[fi]; FrSnap in = intendedFrame(sh, vs);
         if (what == "newpts") { g.add(fresh.points()); want.pts = in.pts; } else if (what == "newan") { g.add(fresh.analogs()); want.subs = in.subs; }
-        ci.given = want; w.R[r] = g; w.Rset[r] = true;
+        ci.given = want; Frame before = w.R[r]; bool beforeSet = w.Rset[r]; w.R[r] = g; w.Rset[r] = true;
         try { w.c->frame(w.R[r], fi); }
-        catch (...) { w.R[r] = Frame(); w.Rset[r] = false; throw; }   // not handed over: the copy still shares with the stored frame (that is what a Frame copy is); the caller drops it
+        catch (...) { w.R[r] = before; w.Rset[r] = beforeSet; throw; }   // not handed over: the copy still shares with the stored frame (that is what a Frame copy is); the caller drops it
     };
     return o;
 }
